@@ -42,31 +42,31 @@ var propStandins = map[string][]Standin{
 		Name: "payload-oracle", Pkg: "internal/index", TestFile: "search_standin_test.go", TestName: "TestC02Standin", OutEnv: "C02_OUT",
 		EnvQuick: []string{"C02_THEN=1", "C02_ANCHORS=1", "C02_ROUNDS=40", "C02_QUERIES=60"}, EnvThorough: []string{"C02_THEN=1", "C02_ANCHORS=1", "C02_ROUNDS=300", "C02_QUERIES=100"},
 		Bound:   "payload filters end to end (expression analysis, shortcut scan, sequence progress across chunks and directions, success/failure accounting, negation): the search-oracle stand-in of C02 (populations of up to 9 stream ids over 1-3 index files, 0-3 payload chunks per stream in either direction out of 10 chunk texts) where half of the payload atoms are THEN chains of 1-3 cdata/sdata elements over 11 expressions (literals, classes, repetition, alternation, fixed and variable length, with literal prefixes and suffixes) plus 8 expressions with assertions (^ $ \\A \\z \\b); compared with a plain left-to-right scan: each element is searched with Go's regexp in its direction's payload from where the previous match ended, and a match ending in chunk i puts the other direction's position after chunk i; also negated and combined with other filters; 40 (quick) / 300 (thorough) populations x 60 / 100 queries. Not generated: variables and captures, data filters without direction inside chains, converter outputs, sub-queries",
-		Timeout: 30 * time.Minute,
+		Timeout: 10 * time.Minute,
 	}},
 	"C03": {{
 		Name: "normal-form-oracle", Pkg: "internal/index", TestFile: "search_standin_test.go", TestName: "TestC02Standin", OutEnv: "C02_OUT",
 		EnvQuick: []string{"C02_THEN=1", "C02_ROUNDS=25", "C02_QUERIES=60"}, EnvThorough: []string{"C02_THEN=1", "C02_TAGS=1", "C02_ROUNDS=200", "C02_QUERIES=100"},
 		Bound:   "the meaning of the normal form end to end (the parts of normalisation that are not under contract: And, the clean* rewrites, time/flag/data atoms, THEN sequences and their negation, translation from text): generated query expressions of depth <= 3 over id/port/bytes/host(/mask)/protocol/time/data filters and THEN chains with AND, OR, NOT, lists and ranges are parsed, normalised and searched over generated populations (25 (quick) / 200 (thorough) populations x 60 / 100 queries); the streams found must be exactly those the expression as written accepts when evaluated directly on the stream's attributes and payload",
-		Timeout: 30 * time.Minute,
+		Timeout: 10 * time.Minute,
 	}},
 	"C06": {{
 		Name: "tag-search", Pkg: "internal/index", TestFile: "search_standin_test.go", TestName: "TestC02Standin", OutEnv: "C02_OUT",
 		EnvQuick: []string{"C02_TAGS=1", "C02_ROUNDS=40", "C02_QUERIES=60"}, EnvThorough: []string{"C02_TAGS=1", "C02_ROUNDS=300", "C02_QUERIES=100"},
 		Bound:   "searches that use tag filters while tags are partly undecided (sequential: no job runs during a search): the search-oracle stand-in of C02 (populations of up to 9 stream ids over 1-3 index files, generated queries, sort keys, limits, pages) with three tags tag/ta, tag/tb, tag/tc per population - random decided-match sets, random undecided sets (with stale match bits under undecided streams), generated definitions of depth <= 2 that may name earlier tags - passed to SearchStreams as TagDetails; a tag filter must select a decided stream by its match bit and an undecided stream by the tag's definition, also under negation, in conjunctions of all three tags and through tags that name tags; 40 (quick) / 300 (thorough) populations x 60 / 100 queries. Not covered: interleavings of job completions with API calls (the property's main quantifier), imports, marks, converters",
-		Timeout: 30 * time.Minute,
+		Timeout: 10 * time.Minute,
 	}},
 	"C11": {{
 		Name: "tag-api", Pkg: "internal/index/manager", TestFile: "tags_standin_test.go", TestName: "TestC11Standin", OutEnv: "C11_OUT",
 		EnvQuick: []string{"C11_SEQS=150", "C11_LEN=7"}, EnvThorough: []string{"C11_SEQS=1500", "C11_LEN=9"},
 		Bound:   "the tag management API as a whole through a real Manager (validation outside the handlers, UpdateTag, acyclicity, atomicity of rejected calls, responsiveness): 150 (quick) / 1500 (thorough) seeded random sequences of 7 / 9 calls out of AddTag, DelTag, UpdateTag(query | colour | name | mark add | mark del) over 9 names (6 valid, 3 invalid), 14 fixed definitions plus definitions over the tags that exist, 6 stream id lists, with and without 4 imported streams; after every call: error exactly when a plain model of the graph rejects it (unknown/duplicate/invalid name, parse error, self reference, missing reference, reference cycle, delete or rename of a referenced tag, unknown stream id), a rejected call leaves ListTags unchanged, names/definitions/colours/Referenced flags/mark counts equal the model, every call answers within 10 s",
-		Timeout: 30 * time.Minute,
+		Timeout: 10 * time.Minute,
 	}},
 	"C02": {{
 		Name: "search-oracle", Pkg: "internal/index", TestFile: "search_standin_test.go", TestName: "TestC02Standin", OutEnv: "C02_OUT",
 		EnvQuick: []string{"C02_ROUNDS=40", "C02_QUERIES=60"}, EnvThorough: []string{"C02_ROUNDS=300", "C02_QUERIES=100"},
 		Bound:   "the search pipeline as a whole (parser, normal form, per-index filters and lookups, scan strategies, sorted limited accumulator, paging): 40 (quick) / 300 (thorough) seeded populations of up to 9 stream ids spread over 1-3 index files with shadowed older versions (IPv4 and IPv6 hosts, 5 ports, 0-3 payload chunks in either direction, TCP/UDP), each with 60 / 100 generated queries of depth <= 3 over id/port/bytes/host(/mask)/protocol/time/data filters with AND, OR, NOT, value lists and ranges, 0-2 sort keys, limits {0,1,2,3,5,100} and pages; the result (ids, each once, newest version, order, page, more-flag) is compared with a direct evaluation of the query on the visible streams. Not generated: THEN sequences, sub-queries, variables, tags, converters, grouping, doubly negated value lists (their normal form takes hours)",
-		Timeout: 30 * time.Minute,
+		Timeout: 10 * time.Minute,
 	}},
 	"C17": {{
 		Name: "set-model", Pkg: "internal/tools/bitmask", TestFile: "bitmask_standin_test.go", TestName: "TestC17Standin", OutEnv: "C17_OUT",
